@@ -7,7 +7,7 @@
    exhaustive small-document tie decide on the implementation. *)
 From Coq Require Import NArith ZArith List Bool String.
 Import ListNotations.
-From Y Require Import Prelude Node Tables NodeOps Types Recognize Loader Spec Pipeline.
+From Y Require Import Prelude Node Tables NodeOps Types Recognize Loader Hooks LoadRun Spec Pipeline Verdicts.
 Open Scope N_scope.
 
 (* the pipeline: recognise and rewrite tags top-down, then construct bottom-up *)
@@ -60,6 +60,17 @@ Proof. exact main_args_signature_order. Qed.
 Theorem C02_extras_document_order : forall known kw,
   map fst (extra_args known kw) = map (fun kv => VStr (fst kv)) (filter (fun kv => negb (umem (fst kv) known)) kw).
 Proof. exact extra_args_document_order. Qed.
+
+(* The third verdict agrees with the first two: the constructor's own isinstance-based check on constructed values
+   accepts every value that conforms to the declared type (and C01 proves that what processing and construction
+   produce for an attribute does conform).  ancestors_ok: Python's MRO contains the registered-bases chains --
+   decidable, evaluated by the tie on every generated registry.  keys_wf: dicts keyed by str. *)
+Theorem C02_constructor_accepts_conforming : forall reg, ancestors_ok reg ->
+  forall T v, keys_wf T -> conforms reg v T -> type_matches reg v T = true.
+Proof. exact conforms_type_matches. Qed.
+Print Assumptions C02_constructor_accepts_conforming.
+Theorem C02_ancestors_decidable : forall reg, ancestors_okb reg = true -> ancestors_ok reg.
+Proof. exact ancestors_okb_sound. Qed.
 
 (* non-vacuity: the dashed key is accepted by recognition and refused by the constructor (no _yatiml_extra) *)
 Local Open Scope string_scope.
